@@ -82,3 +82,70 @@ run("D8", Model(n_periods=2,
     functions={"utility": u5, "next_wealth": next_w6, "cons_constraint": cons_constraint},
     choices={"consumption": LinspaceGrid(start=1, stop=5, n_points=4)},
     states={"wealth": LinspaceGrid(start=1, stop=5, n_points=1)}))
+
+# D4b: a CHOICE that enters only a filter
+def u4b(consumption, wealth):
+    return jnp.log(consumption) + 0 * wealth
+def gate_filter(gate, lagged):
+    return jnp.logical_or(gate == 0, lagged == 1)
+def next_lagged_b(lagged):
+    return lagged
+def u4c(consumption, lagged):
+    return jnp.log(consumption) + 0.1 * lagged
+run("D4b", Model(n_periods=2,
+    functions={"utility": u4c, "next_wealth": next_w6, "next_lagged": next_lagged_b,
+               "gate_filter": gate_filter, "cons_constraint": cons_constraint},
+    choices={"gate": DiscreteGrid(B), "consumption": LinspaceGrid(start=1, stop=5, n_points=4)},
+    states={"wealth": LinspaceGrid(start=1, stop=5, n_points=4), "lagged": DiscreteGrid(B)}))
+
+# D4c: a state that enters no function at all (but has a transition)
+def next_unused(consumption):
+    return 0 * consumption.astype(int)
+run("D4c", Model(n_periods=2,
+    functions={"utility": u5, "next_wealth": next_w6, "next_idle": lambda idle: idle, "cons_constraint": cons_constraint},
+    choices={"consumption": LinspaceGrid(start=1, stop=5, n_points=4)},
+    states={"wealth": LinspaceGrid(start=1, stop=5, n_points=4), "idle": DiscreteGrid(B)}))
+
+# D4d: a choice that enters no function at all
+run("D4d", Model(n_periods=2,
+    functions={"utility": u5, "next_wealth": next_w6, "cons_constraint": cons_constraint},
+    choices={"consumption": LinspaceGrid(start=1, stop=5, n_points=4), "idle": DiscreteGrid(B)},
+    states={"wealth": LinspaceGrid(start=1, stop=5, n_points=4)}))
+
+# D10: a choice that enters only a transition function (fails in the last period)
+def next_wealth10(wealth, consumption, invest):
+    return (wealth - consumption) * (1.0 + 0.1 * invest)
+run("D10", Model(n_periods=2,
+    functions={"utility": u5, "next_wealth": next_wealth10, "cons_constraint": cons_constraint},
+    choices={"consumption": LinspaceGrid(start=1, stop=5, n_points=4), "invest": DiscreteGrid(B)},
+    states={"wealth": LinspaceGrid(start=1, stop=5, n_points=4)}))
+
+# D10 with a single period: no transition is ever needed
+run("D10-one-period", Model(n_periods=1,
+    functions={"utility": u5, "next_wealth": next_wealth10, "cons_constraint": cons_constraint},
+    choices={"consumption": LinspaceGrid(start=1, stop=5, n_points=4), "invest": DiscreteGrid(B)},
+    states={"wealth": LinspaceGrid(start=1, stop=5, n_points=4)}))
+
+# D4e: a state that enters a filter and a transition, but not utility/constraints
+def next_exp_e(exp, working):
+    return jnp.minimum(exp + working, 1)
+def exp_filter(exp, working):
+    return jnp.logical_or(working == 0, exp == 0)
+run("D4e", Model(n_periods=2,
+    functions={"utility": u4, "next_wealth": next_w6, "next_exp": next_exp_e, "exp_filter": exp_filter,
+               "cons_constraint": cons_constraint},
+    choices={"working": DiscreteGrid(B), "consumption": LinspaceGrid(start=1, stop=5, n_points=4)},
+    states={"wealth": LinspaceGrid(start=1, stop=5, n_points=4), "exp": DiscreteGrid(B)}))
+
+# D4f: a choice that enters a filter and a transition, but not utility/constraints
+def next_exp_f(exp, train):
+    return jnp.minimum(exp + train, 1)
+def train_filter(exp, train):
+    return jnp.logical_or(train == 0, exp == 0)
+def u4f(consumption, exp):
+    return jnp.log(consumption) + 0.1 * exp
+run("D4f", Model(n_periods=2,
+    functions={"utility": u4f, "next_wealth": next_w6, "next_exp": next_exp_f, "train_filter": train_filter,
+               "cons_constraint": cons_constraint},
+    choices={"train": DiscreteGrid(B), "consumption": LinspaceGrid(start=1, stop=5, n_points=4)},
+    states={"wealth": LinspaceGrid(start=1, stop=5, n_points=4), "exp": DiscreteGrid(B)}))
